@@ -17,6 +17,9 @@ CONSTANTS MaxOps,    \* number of Ref/Up/Prune operations in a behaviour (all re
           Hold,      \* TRUE: cursor VALUES are held: any live cursor value may be used for the next Ref / Prune (take all
                      \* children of a node first, prune / descend through the earlier ones later); FALSE: one current cursor
                      \* (a stack: Ref pushes a new value, Up goes back to the value held before)
+          Exotic,    \* TRUE: the source is one of the XTrees: level-0 trees with a Merkle-proof / Merkle-update cell BELOW the
+                     \* root (built here with Proof / Cells operators, handed over as a bag written with Boc!Write); the cursor
+                     \* prunes beside such a cell, above it, the cell itself and positions strictly beneath it
           TwoStep    \* TRUE: the source of the prover is the tree under an earlier proof Proof(tree, A) (a partial view with
                      \* pruned branches, root of level 1); A ranges over the single positions and the pairs of incomparable
                      \* positions of depth <= 2.  The second-step cursor then reaches positions outside A, next to A's pruned
@@ -39,6 +42,24 @@ Trees == <<
   << C(A, <<2, 3>>), C(B, <<4, 5>>), C(B, <<5, 4>>), C(D, <<>>), C(F, <<>>) >>  \* 11 mirrored children (not equal)
 >>
 
+\* ---- trees with Merkle cells below the root
+Sub  == << C(B, <<2, 3>>), C(E, <<>>), C(F, <<4>>), C(D, <<>>) >>            \* c[g1, g2[g3]]
+Sub2 == << C(G, <<2, 3>>), C(A, <<>>), C(B, <<>>) >>
+\* a Merkle-update cell over two tables (root row 1 each, masks set)
+MUpd(TA, TB) == LET IA == InfoTable(TA)  IB == InfoTable(TB) IN
+  << [b |-> BytesToBits(<<4>> \o IA[1].h[1] \o IB[1].h[1] \o U16(IA[1].d[1]) \o U16(IB[1].d[1])), x |-> MerkleUpdate,
+      m |-> OrM(TA[1].m, TB[1].m) \div 2, r |-> <<2, 2 + Len(TA)>>] >> \o Shift(TA, 1) \o Shift(TB, 1 + Len(TA))
+\* `rows` (ordinary cells whose references point into themselves and to row Len(rows) + 1) followed by the table X
+Over(rows, X) == rows \o Shift(X, Len(rows))
+Inner == Over(<< C(F, <<2, 3>>), C(E, <<>>) >>, Proof(Sub2, 1, {<<1>>}))       \* r2[leaf, M2[pruned, leaf]]
+XTrees == <<
+  Over(<< C(A, <<2, 3>>), C(G, <<>>) >>, Proof(Sub, 1, {})),                     \* 1 root[leaf, M[c[g1, g2[g3]]]]: proof cell over a whole sub-tree
+  Over(<< C(D, <<3, 2>>), C(E, <<>>), C(B, <<4>>) >>, Proof(Sub, 1, {<<1>>})),   \* 2 root[a[M[c[pruned, g2[g3]]]], leaf]: over a partly pruned sub-tree
+  Over(<< C(A, <<3, 2>>), C(F, <<>>) >>, MUpd(Body(Proof(Sub2, 1, {<<2>>})), Sub)),  \* 3 root[U[x[y, pruned], c[..]], leaf]: update cell, two children
+  Over(<< C(B, <<2, 3>>), C(D, <<>>) >>, Proof(Inner, 1, {}))                    \* 4 root[leaf, M1[r2[leaf, M2[pruned, leaf]]]]: Merkle depth 2
+>>
+SrcTrees == IF Exotic THEN XTrees ELSE Trees
+
 VARIABLES T, hs, stk, ps, nxt, hist, exph, cur, open, nops, done, first
 vars == <<T, hs, stk, ps, nxt, hist, exph, cur, open, nops, done, first>>
 \* T: the source table of the prover; hs: the cursor values of the open session (handle h = hs[h + 1], a path; handle 0 is
@@ -51,12 +72,13 @@ RECURSIVE PathsBelow(_, _, _, _)
 PathsBelow(TT, j, p, d) == IF d = 0 THEN {} ELSE UNION {{Append(p, k)} \cup PathsBelow(TT, TT[j].r[k], Append(p, k), d - 1) : k \in 1..Len(TT[j].r)}
 FirstSets(TT) == LET pp == PathsBelow(TT, 1, <<>>, 2) IN
                 {{p} : p \in pp} \cup {{x[1], x[2]} : x \in {y \in pp \X pp : y[1] # y[2] /\ ~PathPrefix(y[1], y[2]) /\ ~PathPrefix(y[2], y[1])}}
-Source(t, fs) == IF fs = {} THEN Trees[t] ELSE WithMasks(Body(Proof(Trees[t], 1, fs)))
+Source(t, fs) == IF fs = {} THEN SrcTrees[t] ELSE WithMasks(Body(Proof(Trees[t], 1, fs)))
 Ev(k, h, nh, i) == [k |-> k, c |-> cur, h |-> h, nh |-> nh, i |-> i]
 CursorEv(c) == [k |-> "Cursor", c |-> c, h |-> 0, nh |-> 0, i |-> 0]
 Refs(h) == Len(T[NodeAt(T, 1, hs[h + 1])].r)
 Top == stk[Len(stk)]
-Init == /\ \E t \in 1..Len(Trees) : \E fs \in (IF TwoStep THEN FirstSets(Trees[t]) ELSE {{}}) : first = <<t, fs>> /\ T = Source(t, fs)
+ASSUME ~(Exotic /\ TwoStep)
+Init == /\ \E t \in 1..Len(SrcTrees) : \E fs \in (IF TwoStep THEN FirstSets(Trees[t]) ELSE {{}}) : first = <<t, fs>> /\ T = Source(t, fs)
         /\ hs = << <<>> >> /\ stk = <<0>> /\ ps = {} /\ nxt = <<1>> /\ cur = 1 /\ hist = << CursorEv(1) >> /\ exph = <<>>
         /\ open = TRUE /\ nops = 0 /\ done = FALSE
 \* ---- one current cursor (stack)
@@ -94,7 +116,9 @@ Spec == Init /\ [][Next]_vars
 
 TableJson(TT) == [i \in 1..Len(TT) |-> [b |-> BitsToStr(TT[i].b), x |-> TT[i].x, m |-> TT[i].m, r |-> [j \in 1..Len(TT[i].r) |-> TT[i].r[j] - 1]]]
 Ch == [magic |-> "generic", idx |-> FALSE, crc |-> FALSE, cache |-> FALSE, size |-> 1, ob |-> 2, hashes |-> FALSE]
-Vector == IF first[2] = {} THEN [t |-> "walk", cells |-> TableJson(T), roots |-> <<0>>, script |-> hist, exphash |-> exph, reqs |-> cur]
+Vector == IF Exotic THEN [t |-> "walk", cells |-> TableJson(T), roots |-> <<0>>, script |-> hist, exphash |-> exph, reqs |-> cur, xtree |-> first[1],
+                          bag |-> BytesToHex(Write(T, <<1>>, Ch)), selfcheck |-> ExoticSourceOK(T, 1)]
+          ELSE IF first[2] = {} THEN [t |-> "walk", cells |-> TableJson(T), roots |-> <<0>>, script |-> hist, exphash |-> exph, reqs |-> cur]
           \* two-step: the source is handed over as the first proof's bag (written by the specification); orig = the level-0 tree
           ELSE [t |-> "walk", cells |-> TableJson(T), roots |-> <<0>>, script |-> hist, exphash |-> exph, reqs |-> cur,
                 orig |-> TableJson(Trees[first[1]]), srcboc |-> BytesToHex(Write(Proof(Trees[first[1]], 1, first[2]), <<1>>, Ch))]
